@@ -94,7 +94,7 @@ Variable cb : option bool.
 
 Lemma store_code_seq : forall c s, fst (run (store_code c) s) = Ok tt.
 Proof.
-  intros c s. unfold store_code.
+  intros c s. unfold store_code, store_code_src, handled; cbn [fst snd interp_store path_of].
   assert (Hw : forall s1, present PFunc s1 = true ->
      fst (run (match c with
                | None => Ret (Ok tt)
